@@ -116,7 +116,7 @@ Proof. unfold ack_ok. intros ->. exact I. Qed.
 (* ---------- the successful end of a round ---------- *)
 Lemma new_sleaves_nth p first ts k :
   nth_error (new_sleaves p first ts) k =
-  option_map (fun x => mkSleaf (leaf_of sha (p_entry x) (first + N.of_nat k) ts) (e_names (p_entry x)))
+  option_map (fun x => mkSleaf (leaf_of sha (p_entry x) (first + N.of_nat k) ts) (names_line (e_names (p_entry x)) ts))
              (nth_error (pl_leaves p) k).
 Proof.
   unfold Model.new_sleaves. revert first k.
@@ -160,7 +160,7 @@ Lemma holds_new h x pre k y :
 Proof.
   intros Hin El Ef Hn.
   exists (i_lockcp x), (i_leaves x),
-    (mkSleaf (leaf_of sha (p_entry y) (r_first (i_rctx x) + N.of_nat k) (r_ts (i_rctx x))) (e_names (p_entry y))).
+    (mkSleaf (leaf_of sha (p_entry y) (r_first (i_rctx x) + N.of_nat k) (r_ts (i_rctx x))) (names_line (e_names (p_entry y)) (r_ts (i_rctx x)))).
   split; [assumption|]. split.
   - rewrite El. rewrite nth_error_app2 by lia.
     replace (N.to_nat (r_first (i_rctx x) + N.of_nat k) - length pre)%nat with k by lia.
